@@ -460,7 +460,8 @@ class DAE:
         Reset array sizes to zero and clear all arrays.
         """
 
-        self.set_t(0.0)
+        # `t < 0` is the pre-simulation (power flow) stage, as in `__init__`
+        self.set_t(-1.0)
         self.m = 0
         self.n = 0
         self.o = 0
